@@ -313,7 +313,7 @@ func checkRTSeq(c RTCase, o *vf.Obs) error {
 	}
 	step := 0
 	fails := 0
-	for iter := 0; iter < 100000; iter++ {
+	for iter := 0; iter < 3000000; iter++ { // a guard against a schedule that never ends, far above what the unlimited windows allow
 		if started {
 			if err := idle(); err != nil {
 				return err
@@ -529,7 +529,11 @@ func checkRTConc(c RTCase, o *vf.Obs) error {
 		vf.GoErr(&wg, &sink, func() {
 			<-gate
 			fails := 0
-			for op := 0; fails < 2 && op < 20000; op++ {
+			// an `unlimited` part hands out a token whenever it is asked: a caller on an idle fast core makes more than
+			// 20000 draws within 11 ms of unlimited windows, so the cap only guards against a schedule that never ends
+			// (20000 once cut a caller short in front of the last finite part: a false alarm in one of 1.27 million
+			// thorough cases)
+			for op := 0; fails < 2 && op < 3000000; op++ {
 				if len(c.Script) > 0 && c.Script[(op+ci)%len(c.Script)] {
 					la := atomic.AddInt64(&clock, 1)
 					a := time.Now()
